@@ -1,19 +1,35 @@
 """C04 — FBA returns a true optimum, or a true verdict that none exists."""
-from contracts import c04_status  # noqa
+from contracts import c04_status, c15_dictlist, c04_solution as CS  # noqa
 from props._generic import run_property, replay_with_driver
 
 LEVEL = "other"
-KEYS = ["check_solver_status", "assert_optimal", "Model.slim_optimize", "Model.optimize"]
+KEYS = ["check_solver_status", "assert_optimal", "Model.slim_optimize", "Model.optimize", "get_solution:body"]
+
+
+def lemmas():
+    """reduced-cost identity of the statement from the assumed KKT contract of the solver: the dual of column j is c_j - sum_i a_ij pi_i;
+    the forward column of reaction r has c = c_r and a = S_mr, so the reported value dual[r.id] equals c_r - sum_m S_mr pi_m (here with
+    the weighted sum abstracted to one real q); the reverse column has the negated data, hence the negated dual - which is why the
+    original `forward - reverse` was twice the value."""
+    import z3
+    from pyvc.engine import Obl
+    c, q, df, dr, rep_ = z3.Reals("l_c l_q l_dfwd l_drev l_reported")
+    kkt = [df == c - q, dr == -c + q]
+    return [Obl("C04/lemma/reduced-cost-identity", kkt + [rep_ == df], rep_ == c - q, "lemma"),
+            Obl("C04/lemma/reverse-dual-is-negated-forward-dual", kkt, dr == -df, "lemma")]
 
 
 def run(rep):
-    run_property(rep, KEYS, explanation=(
+    run_property(rep, KEYS, hooks=CS.HOOKS, lemmas=lemmas, explanation=(
         "Deductive (cobrapy's own part): slim_optimize is proved to return the objective value exactly when the status is optimal and "
         "otherwise the caller's error value, or - with error_value=None - to raise the exception class OPTLANG_TO_EXCEPTIONS_DICT "
         "assigns to the status; check_solver_status and assert_optimal are proved against their decision tables; Model.optimize is "
-        "proved to leave the objective direction as found on every exit, normal or exceptional. That GLPK's optimal is a true "
-        "optimum, and the numpy/pandas assembly in get_solution (fluxes = forward - reverse primal, duals), are NOT proved: bounded "
-        "driver against an exact rational LP oracle with duality certificate on generated models."),
+        "proved to leave the objective direction as found on every exit, normal or exceptional; get_solution is proved (three loop "
+        "invariants, any number of reactions and metabolites) to assemble fluxes[i] = primal[id] - primal[reverse_id], reduced_costs[i] "
+        "= dual of the forward variable, shadow_prices[i] = dual of the metabolite's row, all under the right identifiers in model "
+        "order, NaN-filled duals for integer problems, in arrays created by the call; two glue lemmas derive the statement's "
+        "reduced-cost identity from the assumed KKT contract of the solver. That GLPK's optimal is a true optimum and that its duals "
+        "certify it is NOT proved: bounded driver against an exact rational LP oracle with duality certificate on generated models."),
         trusted=["optlang/GLPK optimize() (assumed contract, monitored by the bounded tier)",
                  "get_solution raising behaviour as seen by optimize (follows check_solver_status, which is proved)"])
 
